@@ -305,6 +305,57 @@ func ruleChunkPartition(c *eng.Ctx) {
 	}
 	walk(lowPhi)
 	c.Check(okEdges, rule, "streamPack:lower-index-advances-to-part-end", inLoop.Pos(), "lowerIdx is 0 initially and afterwards only the upper bound of the part just streamed (values: %s): no requested blob is skipped or streamed twice", strings.Join(desc, ", "))
+	// no part is empty: streamPackPart reads blobs[0] and blobs[len-1]. The bounded part
+	// blobs[lowerIdx:i] is streamed only behind i > lowerIdx, or behind the gap test (the gap
+	// before blob lowerIdx itself is zero by construction); the remainder only for a non-empty request.
+	gapMax, gapOK := constIntVal(c, rule, pkgRepo+".maxUnusedRange")
+	nonEmpty := eng.CmpEdges(fn, func(op token.Token, x, y ssa.Value) (bool, bool) {
+		isHigh := func(v ssa.Value) bool { return v == high || eng.SameAs(high)(v) }
+		isLow := func(v ssa.Value) bool {
+			for _, o := range originsThroughPhi(v) {
+				if o == ssa.Value(lowPhi) {
+					return true
+				}
+			}
+			return v == ssa.Value(lowPhi)
+		}
+		switch {
+		case isHigh(x) && isLow(y):
+			switch op {
+			case token.GTR:
+				return true, true
+			case token.LEQ:
+				return true, false
+			}
+		case isLow(x) && isHigh(y):
+			switch op {
+			case token.LSS:
+				return true, true
+			case token.GEQ:
+				return true, false
+			}
+		}
+		if k, isK := eng.ConstInt(y); gapOK && isK && k == gapMax && op == token.GTR {
+			return true, true
+		}
+		return false, false
+	})
+	c.MustPass(rule, "streamPack:bounded-part-is-not-empty", eng.Entry(fn), inLoop.(ssa.Instruction), eng.NewCut().AddEdges(nonEmpty...), "i > lowerIdx (the part holds at least one blob), or the gap before blob i exceeds maxUnusedRange")
+	isBl := eng.IsParam(fn, "blobs")
+	emptyReq := eng.CmpEdges(fn, func(op token.Token, x, y ssa.Value) (bool, bool) {
+		k, isK := eng.ConstInt(y)
+		if !isK || k != 0 || !eng.IsLenOf(x, isBl) {
+			return false, false
+		}
+		switch op {
+		case token.EQL:
+			return true, false
+		case token.NEQ, token.GTR:
+			return true, true
+		}
+		return false, false
+	})
+	c.MustPass(rule, "streamPack:remainder-is-not-empty", eng.Entry(fn), last.(ssa.Instruction), eng.NewCut().AddEdges(emptyReq...), "len(blobs) != 0")
 	// a failed part aborts
 	for _, p := range parts {
 		ev := eng.ErrResult(p)
